@@ -27,7 +27,9 @@ META = {
             "peer/both closes and counter wrap-around, from counter values 0, 2^24-2, 2^24-1: every id handed out "
             "(Channel.chanid and the id announced in OPEN / OPEN_CONFIRMATION) is < 2^24 and differs from every "
             "channel that is still open (not closed by both sides). Plus all schedules with <=2/3 preemptions of a "
-            "local open racing a peer open.",
+            "local open racing a peer open. Both parts for every kind of peer-opened channel and role: server x "
+            "{session, direct-tcpip}, client x {x11, forwarded-tcpip, auth-agent} (each kind has its own "
+            "lock/allocate branch in _parse_channel_open; BFS one level shallower for the four extra kinds).",
     "note": "un-started Transport with a collecting packetizer; the harness feeds handler functions the run loop "
             "would call; counter wrap modelled by setting the counter to a live id (reachable by 2^24 opens)",
     "design_ref": "4/C23",
@@ -38,18 +40,50 @@ EVENTS = [("lopen",), ("lopen_fail",), ("popen_ok",), ("popen_rej",), ("close_bo
           ("lclose", 0), ("pclose", 0), ("pclose", -1), ("wrap", 0), ("wrap", -1)]
 
 
+# which side the transport plays and which kind of channel the peer opens: every kind has its own branch
+# (and its own lock/allocate sequence) in Transport._parse_channel_open
+FLAVOURS = [("server", "session"), ("server", "direct-tcpip"), ("client", "x11"), ("client", "forwarded-tcpip"),
+            ("client", "auth-agent@openssh.com")]
+HANDLER_ATTR = {"x11": "_x11_handler", "forwarded-tcpip": "_tcp_handler",
+                "auth-agent@openssh.com": "_forward_agent_handler"}
+
+
+def peer_open_message(kind, peer_id):
+    m = Message()
+    m.add_string(kind)
+    m.add_int(peer_id)
+    m.add_int(65536)
+    m.add_int(32768)
+    if kind == "x11":
+        m.add_string("127.0.0.1")
+        m.add_int(6000)
+    elif kind in ("forwarded-tcpip", "direct-tcpip"):
+        m.add_string("127.0.0.1")
+        m.add_int(4000)
+        m.add_string("127.0.0.2")
+        m.add_int(5000)
+    m.rewind()
+    return m
+
+
 class World:
     """Builds a transport inside a scheduler run and applies events."""
 
-    def __init__(self, s, counter0, accept=True):
+    def __init__(self, s, counter0, flavour=FLAVOURS[0]):
         self.s = s
+        self.flavour = tuple(flavour)
         self.server = F.ScriptedServer()
         t = Transport(vsocket.VSock("T"), packetizer_class=chanpair.Outbox)
         t.active = True
         t.clear_to_send.set()
         t.initial_kex_done = True
-        t.server_mode = True
-        t.server_object = self.server
+        if self.flavour[0] == "server":
+            t.server_mode = True
+            t.server_object = self.server
+        else:
+            # client side: peer-opened channels are handed to the registered handler (recorded like accepts)
+            self.handler = lambda chan, *a: t.server_accepts.append(chan)
+            setattr(t, HANDLER_ATTR[self.flavour[1]], self.handler)
         t._channel_counter = counter0
         self.t = t
         self.chans = []        # every Channel ever created (strong refs), in creation order
@@ -140,17 +174,19 @@ class World:
                 self.assigned.append((announced, kind))
         elif kind in ("popen_ok", "popen_rej"):
             from paramiko import OPEN_SUCCEEDED, OPEN_FAILED_ADMINISTRATIVELY_PROHIBITED
-            self.server.script["channel_request"] = (
-                OPEN_SUCCEEDED if kind == "popen_ok" else OPEN_FAILED_ADMINISTRATIVELY_PROHIBITED)
-            m = Message()
-            m.add_string("session")
-            m.add_int(self.peer_next)
+            pk = self.flavour[1]
+            if self.flavour[0] == "server":
+                self.server.script["channel_request" if pk == "session" else "direct_tcpip"] = (
+                    OPEN_SUCCEEDED if kind == "popen_ok" else OPEN_FAILED_ADMINISTRATIVELY_PROHIBITED)
+            else:
+                # a client refuses a peer-opened channel when no handler is registered for its kind
+                setattr(t, HANDLER_ATTR[pk], self.handler if kind == "popen_ok" else None)
+            m = peer_open_message(pk, self.peer_next)
             self.peer_next += 1
-            m.add_int(65536)
-            m.add_int(32768)
-            m.rewind()
             before = list(t.server_accepts)
             t._parse_channel_open(m)
+            if self.flavour[0] == "client":
+                setattr(t, HANDLER_ATTR[pk], self.handler)
             msgs = self._take_outbox()
             if kind == "popen_ok":
                 oks = [x for x in msgs if x[0] == MSG_CHANNEL_OPEN_SUCCESS]
@@ -198,9 +234,9 @@ class World:
         return (t._channel_counter, live, tuple(sorted(k for k in t._channels._map.keys())))
 
 
-def run_history(counter0, hist):
+def run_history(counter0, hist, flavour=FLAVOURS[0]):
     def body(s):
-        w = World(s, counter0)
+        w = World(s, counter0, flavour)
         for ev in hist:
             w.apply(ev)
         out = (w.canon(), list(w.problems), list(w.assigned), len(w.live()))
@@ -213,27 +249,30 @@ def run_history(counter0, hist):
 
 
 def bfs_item(item, acc):
-    tier, counter0, depth, prefix = item
+    tier, counter0, depth, prefix = item[:4]
+    flavour = item[4] if len(item) > 4 else FLAVOURS[0]
+    ftag = "" if flavour == FLAVOURS[0] else ":peer-opens-%s" % flavour[1]
     seen = set()
     frontier = collections.deque()
     n_states = n_trans = 0
 
     def step(hist):
         nonlocal n_trans
-        ex = run_history(counter0, hist)
+        ex = run_history(counter0, hist, flavour)
         acc.ev()
         acc.validated += 1
         if ex.outcome != "ok":
-            acc.violation("bfs:harness-outcome:%s" % ex.outcome, {"counter0": counter0, "history": hist,
-                                                                  "err": repr(ex.error)},
-                          {"part": "bfs", "counter0": counter0, "history": hist})
+            acc.violation("bfs:harness-outcome:%s%s" % (ex.outcome, ftag), {"counter0": counter0, "history": hist,
+                                                                            "err": repr(ex.error)},
+                          {"part": "bfs", "counter0": counter0, "history": hist, "flavour": list(flavour)})
             return None
         canon, problems, assigned, nlive = ex.value
         for pr in problems:
-            acc.violation("%s:%s" % (pr[0], pr[1] if len(pr) > 1 and isinstance(pr[1], str) else "-"),
+            acc.violation("%s:%s%s" % (pr[0], pr[1] if len(pr) > 1 and isinstance(pr[1], str) else "-", ftag),
                           {"counter0": counter0, "history": [list(e) for e in hist], "problem": pr,
-                           "assigned": assigned},
-                          {"part": "bfs", "counter0": counter0, "history": [list(e) for e in hist]})
+                           "assigned": assigned, "flavour": list(flavour)},
+                          {"part": "bfs", "counter0": counter0, "history": [list(e) for e in hist],
+                           "flavour": list(flavour)})
         if problems:
             return None
         return canon, assigned, nlive
@@ -260,7 +299,7 @@ def bfs_item(item, acc):
                 seen.add(canon)
                 n_states += 1
                 if nlive >= 2 or any(e[0] == "wrap" for e in hist + [ev]):
-                    acc.nt((counter0, canon))
+                    acc.nt((counter0, canon, flavour))
                 frontier.append(hist + [ev])
                 last = hist + [ev]
     acc.states += n_states
@@ -275,10 +314,11 @@ TRACE = {ptransport.__file__: {"open_channel", "_next_channel", "_parse_channel_
 
 
 def make_race_body(scn):
-    counter0, pre_live, wrap = scn
+    counter0, pre_live, wrap = scn[:3]
+    flavour = tuple(scn[3]) if len(scn) > 3 else FLAVOURS[0]
 
     def body(s):
-        w = World(s, counter0)
+        w = World(s, counter0, flavour)
         for _ in range(pre_live):
             w.apply(("popen_ok",))
         if wrap and w.live():
@@ -293,13 +333,7 @@ def make_race_body(scn):
                 res["err"] = e
 
         def peer():
-            m = Message()
-            m.add_string("session")
-            m.add_int(555)
-            m.add_int(65536)
-            m.add_int(32768)
-            m.rewind()
-            t._parse_channel_open(m)
+            t._parse_channel_open(peer_open_message(flavour[1], 555))
 
         a, b = vthreading.Thread(target=opener), vthreading.Thread(target=peer)
         s.branching = True
@@ -375,7 +409,8 @@ def race_item(item, acc):
         outs.add((v["wire"].get("local"), v["wire"].get("peer")))
         j = judge_race(v)
         if j is not None:
-            acc.violation("race:%s" % j[0], {"scn": scn, "obs": j[1], "choices": ex.choices},
+            acc.violation("race:%s%s" % (j[0], ":peer-opens-%s" % scn[3][1] if len(scn) > 3 and tuple(scn[3]) != FLAVOURS[0] else ""),
+                          {"scn": scn, "obs": j[1], "choices": ex.choices},
                           {"part": "race", "scn": scn, "choices": ex.choices})
     res = explore.explore(body, bound, "preempt", cap=20000, on_exec=on_exec, sched_kw=kw)
     acc.count("race_schedules", res.executions)
@@ -406,6 +441,17 @@ def main(tier):
         for pre in (0, 1, 2):
             for wrap in ((False, True) if pre else (False,)):
                 items.append(("race", tier, (c0, pre, wrap), bound))
+    # the other kinds of peer-opened channels (each has its own allocation branch), both roles
+    for fl in FLAVOURS[1:]:
+        for c0 in (0, LIMIT - 1):
+            items.append(("bfs", tier, c0, 0, (), fl))
+            for e in EVENTS[:4]:
+                items.append(("bfs", tier, c0, depth - 1, (e,), fl))
+            for pre in (0, 1):
+                for wrap in ((False, True) if pre else (False,)):
+                    if tier == "quick" and (c0 != 0 or (pre, wrap) == (1, False)):
+                        continue
+                    items.append(("race", tier, (c0, pre, wrap, fl), bound))
 
     def run(item, acc):
         (bfs_item if item[0] == "bfs" else race_item)(item[1:], acc)
@@ -422,10 +468,10 @@ def main(tier):
 def replay(rec):
     r = rec["replay"]
     if r["part"] == "bfs":
-        ex = run_history(r["counter0"], [tuple(e) for e in r["history"]])
+        ex = run_history(r["counter0"], [tuple(e) for e in r["history"]], tuple(r.get("flavour") or FLAVOURS[0]))
         print(ex.outcome, ex.error, ex.value)
         return 1 if (ex.outcome != "ok" or ex.value[1]) else 0
-    scn = tuple(r["scn"])
+    scn = tuple(tuple(x) if isinstance(x, list) else x for x in r["scn"])
     ex = explore.replay(make_race_body(scn), r["choices"], "preempt",
                         {"trace_files": TRACE, "horizon": S.EPOCH + 3600})
     print(ex.outcome, ex.error, ex.value)
